@@ -149,4 +149,15 @@ CHECKS = {
         note=COMMON_NOTE,
         technique="TLA+ interpreter semantics (RunSem) + TLC BFS over a program-builder state machine, behaviours replayed into NewModelFromBytes + Run",
         design_ref="DESIGN.md section 6 (C01)"),
+    "C02": dict(
+        text="Bounded-exhaustive over HISTORIES: spec/Interp.tla models model.go as a state machine over a heap of tensor objects with "
+             "identity and ownership (weights, caller tensors, per-Run results); TLC explores every bounded history of Run calls "
+             "(object re-use, outputs fed back, other batch sizes, failing calls) checking in every state that results equal the "
+             "functional semantics (HistoryIndependent), that outputs are complete and - as an action property - that no weight or "
+             "caller object ever changes; with the as-is effect summaries TLC produces the violating history (anti-vacuity). Every "
+             "history is replayed on one real Model with the same object sharing, each call compared with the spec, with snapshots of "
+             "all caller tensors and weights and with a freshly loaded model.",
+        note=COMMON_NOTE,
+        technique="TLA+ interpreter state machine with object heap, TLC BFS over call histories (invariants + action property), behaviours replayed into Model.Run",
+        design_ref="DESIGN.md section 6 (C02)"),
 }
